@@ -2044,6 +2044,7 @@ func (ls *LState) Resume(th *LState, fn *LFunction, args ...LValue) (ResumeState
 		}
 		th.padResumeValues(len(args))
 	}
+	th.wrapped = false // this resume expects the status in front of the values
 	th.Parent = ls
 	ls.G.CurrentThread = th
 	top := ls.GetTop()
